@@ -36,4 +36,11 @@ Reverse      == IsVec => VecReverse(d.n, d.inc)
 \* a unit-diagonal descriptor references exactly the off-diagonal cells of its non-unit twin
 UnitDiagonal == (~IsVec /\ d.kind \in TriKinds /\ d.dg = Unit) =>
                    Cells(d) = {ij \in Cells([d EXCEPT !.dg = NonUnit]) : ij[1] # ij[2]}
+\* column-major twins (dense and band kinds): same extra over the minimum column distance
+HasCols == ~IsVec /\ d.kind \in DenseKinds \cup BandKinds
+dc      == [d EXCEPT !.ld = ColMinLd(d) + (d.ld - MinLd(d))]
+ColDuality  == HasCols => ColDual(dc)
+ColRange    == HasCols => ColInRange(dc)
+ColInject   == HasCols => ColInjective(dc)
+ColInverse  == HasCols => ColInverseOK(dc)
 =============================================================================
